@@ -4,6 +4,10 @@ Proof: lean/Reduino/Props/C05.lean (emit()'s two-pass assembly: configure-before
 first and once, nothing configured in loop(); plus the C01 theorems for the split itself and the break guard).
 Tie T/S_c: the order of use / statement / poll events the model predicts for `setup(); loop() x N` vs the compiled sketch's
 trace, on random device sets declared before the main loop or at the top of its body.
+Proof (W4): lean/Reduino/Props/C05Pins.lean on the pin-level model Lang/AssemblePins.lean (which pin gets which mode where, which pin a
+command touches under re-binding): configured_before_touch / pin_configured_before_use, no_mode_conflict, rebinding_configures_new_pin,
+housekeeping_first_once, for all programs satisfying the decidable DocumentedPins and all N; tied by "pin-level assembly (AssemblePins.run vs
+compiled sketch)" on the same generated scripts plus hand-written re-binding shapes.
 Oracle: temporal monitors on the firmware trace (every pin/peripheral event preceded by its configuration, no pin
 re-configured to another mode, one poll per button per pass before user code, prologue once / body per pass in order)."""
 from __future__ import annotations
@@ -19,6 +23,8 @@ TRUSTED = [
     "Lean 4.33 kernel; axioms ⊆ {propext, Classical.choice, Quot.sound}",
     "the abstraction of a script to its top-level items (declaration / use / other statement) is built by the harness together with the script",
     "mock core + host g++: what a peripheral does once configured is the mock's",
+    "pin-level tie (W4): the projection of a mock-core trace line to the alphabet of AssemblePins.Ev (pm / dw,aw,tone -> write / dr,ar,pulsein -> read / servo.attach / servo.write / lcd.init,begin / serial.begin), and the pins each generated constructor call names, are the harness's",
+    "pin-level theorems are about Lang/AssemblePins.run; they reach the emitter only through that tie (random device sets + hand-written re-binding shapes), for the one command per device kind the tie uses",
 ]
 HEAD = ("from Reduino.Actuators import Led, RGBLed, Servo, DCMotor, Buzzer\nfrom Reduino.Sensors import Button, Potentiometer, Ultrasonic\nfrom Reduino.Displays import LCD\n"
         "from Reduino.Communication import SerialMonitor\nfrom Reduino.Utils import sleep\n")
@@ -255,6 +261,153 @@ def abstract_trace(trace, devs):
     return " ".join(seq)
 
 
+# ---- W4: pin-level assembly tie (Lang/AssemblePins.lean) -------------------------------------------------------------
+def pin_items(items):
+    """the same generated description, with the pins each constructor names"""
+    out = []
+    for it in items:
+        if it[0] == "decl":
+            d = it[1]
+            pins = [] if d.kind in ("lcd", "serial") else d.pins
+            out.append(f"d:{d.kind}:{d.name}:" + ",".join(str(x) for x in pins))
+        elif it[0] == "decl2":
+            out.append(f"d:led:{it[1].name}:{it[1].loop_pins[0]}")
+        elif it[0] == "use":
+            out.append(f"u:{it[1].name}" if it[1].kind != "serial" else f"s:{it[2]}")
+        else:
+            out.append(f"s:{it[1]}")
+    return " ".join(out)
+
+
+def pin_trace(trace, items_s, items_l):
+    """mock-core trace -> the alphabet of AssemblePins.Ev (pm / at / sb / li / w / r / sw / lw / s / p), `|` between phases"""
+    buttons, lcds = {}, []
+    for w in (items_s + " " + items_l).split():
+        f = w.split(":")
+        if f[0] == "d" and f[1] == "button":
+            buttons.setdefault(int(f[3]), f[2])
+        if f[0] == "d" and f[1] == "lcd" and f[2] not in lcds:
+            lcds.append(f[2])           # display objects are constructed in order of first declaration
+    lcd = lambda i: lcds[int(i)] if int(i) < len(lcds) else "?"
+    servo_pin = {}
+    seq, in_loop = [], False
+    for l in trace:
+        w = l.split(" ")
+        k = w[0]
+        if l.startswith("== loop"):
+            in_loop = True
+            seq.append("|")
+        elif l.startswith("=="):
+            continue
+        elif k == "pm":
+            seq.append(f"pm:{w[1]}:{w[2]}")
+        elif k in ("dw", "aw", "tone", "notone"):
+            seq.append(f"w:{w[1]}")
+        elif k == "dr":
+            seq.append(f"p:{buttons.get(int(w[1]), '?')}:{w[1]}" if in_loop else f"r:{w[1]}")
+        elif k in ("ar", "pulsein"):
+            seq.append(f"r:{w[1]}")
+        elif k == "servo.attach":
+            servo_pin[w[1]] = w[2]
+            seq.append(f"at:{w[2]}")
+        elif k == "servo.write":
+            seq.append(f"sw:{servo_pin.get(w[1], '?')}")
+        elif k == "serial.begin":
+            seq.append("sb")
+        elif k in ("lcd.init", "lcd.begin"):
+            seq.append("li:" + lcd(w[1]))
+        elif k == "lcd.print" and w[4] == "x78":
+            seq.append("lw:" + lcd(w[1]))
+        elif k == "delay" and int(w[1]) > 100:
+            seq.append(f"s:{w[1]}")
+        elif k == "println" and w[1].startswith("x") and re.fullmatch(r"\d{3}", bytes.fromhex(w[1][1:]).decode(errors="replace")):
+            seq.append("s:" + bytes.fromhex(w[1][1:]).decode())
+    return " ".join(seq)
+
+
+IMPORTS = HEAD
+# hand-written re-binding shapes the generator does not produce: (prologue lines, loop lines, setup items, loop items)
+PIN_EXTRAS = [
+    # a Led bound twice before the loop: each use drives the pin of the binding in force
+    (["a = Led(2)", "a.toggle()", "a = Led(3)", "a.toggle()", "sleep(101)"], ["a.toggle()", "sleep(102)"],
+     "d:led:a:2 u:a d:led:a:3 u:a s:101", "u:a s:102"),
+    # before the loop, and twice at the top of the body
+    (["a = Led(2)", "a.toggle()"], ["a = Led(3)", "a = Led(4)", "a.toggle()", "sleep(102)"],
+     "d:led:a:2 u:a", "d:led:a:3 d:led:a:4 u:a s:102"),
+    # the same RGB LED before the loop and at the top of the body (tuples already in the dedup set), then on new pins
+    (["r = RGBLed(3, 5, 6)", "r.set_color(7, 0, 0)"], ["r = RGBLed(3, 5, 6)", "r.set_color(7, 0, 0)", "sleep(102)"],
+     "d:rgb:r:3,5,6 u:r", "d:rgb:r:3,5,6 u:r s:102"),
+    (["r = RGBLed(3, 5, 6)", "r.set_color(7, 0, 0)"], ["r = RGBLed(9, 10, 11)", "r.set_color(7, 0, 0)", "sleep(102)"],
+     "d:rgb:r:3,5,6 u:r", "d:rgb:r:9,10,11 u:r s:102"),
+    # motor re-bound at the top of the body: both pin triples are stopped in setup()
+    (["m = DCMotor(2, 3, 5)", "m.set_speed(1)"], ["m = DCMotor(7, 8, 9)", "m.set_speed(1)", "sleep(102)"],
+     "d:motor:m:2,3,5 u:m", "d:motor:m:7,8,9 u:m s:102"),
+    # ultrasonic / potentiometer / buzzer re-bound
+    (["mon = SerialMonitor(9600)", "u = Ultrasonic(2, 3)", "mon.write(u.measure_distance())"], ["u = Ultrasonic(4, 5)", "mon.write(u.measure_distance())", "sleep(102)"],
+     "d:serial:mon: d:ultra:u:2,3 u:u", "d:ultra:u:4,5 u:u s:102"),
+    # every measurement of a name goes through one helper that holds the pins of the LAST binding: bound twice before the loop, a
+    # measurement in between drives the second pair before it is configured (see ultrasonic_rebound_before_loop_counterexample)
+    (["mon = SerialMonitor(9600)", "u = Ultrasonic(2, 3)", "mon.write(u.measure_distance())", "u = Ultrasonic(4, 5)"], ["sleep(102)"],
+     "d:serial:mon: d:ultra:u:2,3 u:u d:ultra:u:4,5", "s:102"),
+    (["mon = SerialMonitor(9600)", "p = Potentiometer(\"A0\")", "mon.write(p.read())"], ["p = Potentiometer(\"A1\")", "mon.write(p.read())", "sleep(102)"],
+     "d:serial:mon: d:pot:p:14 u:p", "d:pot:p:15 u:p s:102"),
+    (["z = Buzzer(4)", "z = Buzzer(5)", "z.play_tone(440)"], ["z.play_tone(440)", "sleep(102)"],
+     "d:buzzer:z:4 d:buzzer:z:5 u:z", "u:z s:102"),
+    # a Servo name keeps the object attached by its first binding
+    (["s = Servo(4)", "s.write(90)"], ["s = Servo(5)", "s.write(90)", "sleep(102)"],
+     "d:servo:s:4 u:s", "d:servo:s:5 u:s s:102"),
+    # a Button re-bound at the top of the body is polled on the new pin; two buttons are polled in name order
+    (["b = Button(4)", "a = Button(6)"], ["b = Button(5)", "sleep(102)"],
+     "d:button:b:4 d:button:a:6", "d:button:b:5 s:102"),
+    # a Button bound twice before the loop: only the first pin is configured, the second is polled (model of the code as it is;
+    # see button_rebound_before_loop_counterexample)
+    (["b = Button(4)", "b = Button(5)"], ["sleep(102)"],
+     "d:button:b:4 d:button:b:5", "s:102"),
+    # parallel LCD with a backlight pin; I2C LCD declared twice
+    (["l = LCD(rs=2, en=3, d4=4, d5=5, d6=6, d7=7, backlight_pin=9)", "l.line(0, \"x\")"], ["l.line(0, \"x\")", "sleep(102)"],
+     "d:lcd:l:2,3,4,5,6,7,9 u:l", "u:l s:102"),
+    (["l = LCD(rs=2, en=3, d4=4, d5=5, d6=6, d7=7)", "l.line(0, \"x\")"], ["sleep(102)"],
+     "d:lcd:l:2,3,4,5,6,7 u:l", "s:102"),
+    (["l = LCD(i2c_addr=39, cols=16, rows=2)", "l = LCD(i2c_addr=39, cols=16, rows=2)", "l.line(0, \"x\")"], ["sleep(102)"],
+     "d:lcd:l: d:lcd:l: u:l", "s:102"),
+]
+
+
+def pins_tie(ctx, cases, srcs, passes, outs, results):
+    """additive tie: AssemblePins.run (which pin gets which mode where, which pin a use touches) vs the compiled sketch"""
+    reqs = [f"pins|{n}|{pin_items(s)}|{pin_items(l)}" for (_, s, l), n in zip(cases, passes)]
+    model = ctx.lean.drive(reqs)
+    for (devs, items_s, items_l), src, n, (cpp, exc), res, m in zip(cases, srcs, passes, outs, results, model):
+        if cpp is None or res is None or res.compile_error or not res.ok:
+            continue                                    # reported by the first tie
+        replay = {"script": src, "passes": n, "tie": "pins"}
+        ctx.count("pins:generated")
+        impl = pin_trace(res.trace, pin_items(items_s), pin_items(items_l))
+        if impl != m:
+            ctx.tie_diff("tie pin-level assembly (AssemblePins.run vs compiled sketch)", replay, m, impl)
+    # hand-written re-binding shapes
+    xsrcs = [IMPORTS + "\n".join(pro) + "\nwhile True:\n" + "\n".join("    " + x for x in body) + "\n" for pro, body, _, _ in PIN_EXTRAS]
+    xouts = [cxx.transpile(s) for s in xsrcs]
+    inp = "".join(f"p {e} " + " ".join(["1000"] * 64) + "\n" for e in range(0, 14))
+    xres = iter(cxx.run_many(ctx, [(cpp, 2, inp) for cpp, _ in xouts if cpp is not None]))
+    xmodel = ctx.lean.drive([f"pins|2|{s}|{l}" for _, _, s, l in PIN_EXTRAS])
+    for (pro, body, s, l), src, (cpp, exc), m in zip(PIN_EXTRAS, xsrcs, xouts, xmodel):
+        replay = {"script": src, "passes": 2, "tie": "pins"}
+        ctx.count("pins:rebinding-shape")
+        ctx.case(src, nontrivial=True)
+        if cpp is None:
+            ctx.tie_diff("tie pin-level assembly (script rejected by the transpiler)", replay, m[:80], repr(exc))
+            continue
+        res = next(xres)
+        if res.compile_error or not res.ok:
+            ctx.fail("split:compile", f"sketch does not compile/run: {(res.compile_error or res.stderr)[:300]}", replay)
+            continue
+        ctx.cov["traces_validated_against_impl"] += 1
+        impl = pin_trace(res.trace, s, l)
+        if impl != m:
+            ctx.tie_diff("tie pin-level assembly (AssemblePins.run vs compiled sketch)", replay, m, impl)
+
+
 CTX = {"if": ["if n > 3:"], "else": ["if n > 3:", "    led.on()", "else:"], "elif": ["if n > 3:", "    led.on()", "elif n > 1:"],
        "try": ["try:"], "except": ["try:", "    led.on()", "except:"], "for": ["for i in range(3):"], "while": ["while n < 5:"],
        "forelse": ["for i in range(3):", "    led.on()", "else:"]}
@@ -306,7 +459,7 @@ def break_guard(ctx):
 
 
 def run(ctx: Ctx) -> int:
-    ctx.prove(["Reduino.Props.C05"])
+    ctx.prove(["Reduino.Props.C05", "Reduino.Props.C05Pins"])
     common.fresh_import()
     rng = ctx.rng
     cases = [gen(rng, force=(k, pl)) for k in sorted(LOOP_OK | {"buzzer"}) for pl in (("setup", "loop") if k in LOOP_OK else ("setup",))]
@@ -337,6 +490,7 @@ def run(ctx: Ctx) -> int:
         if impl != m:
             ctx.tie_diff("tie assemble (Lang.Assemble.run vs compiled sketch: order of use/statement/poll events)", replay, m, impl)
         monitor(ctx, res.trace, devs, src, n)
+    pins_tie(ctx, cases, srcs, passes, outs, results)
     break_guard(ctx)
     lateinit.check(ctx, "split:prologue-order", 40, 400)
     lateinit.check(ctx, "split:value-does-not-persist", 40, 400, passes=3, family=lateinit.persist_scripts)
